@@ -10,6 +10,7 @@ EXTRACTION_DROPS = [
 UNITS = {
     "time_locks": {"template": "contracts/time_locks.vrs", "rlimit": 30},
     "int_encoders": {"template": "contracts/int_encoders.vrs", "rlimit": 30},
+    "conditions_parse": {"template": "contracts/conditions_parse.vrs", "rlimit": 60},
 }
 
 
@@ -64,6 +65,34 @@ PROPS["C11"] = {
     "not_covered": [
         "clvm-traits ToClvm/FromClvm integer impls for widths other than 64 bits (macro-generated; route through encode_number/decode_number, which Kani proves at 64 bits only)",
         "Allocator::new_number (the interpreter's own encoder) is in the assumed shim",
+    ],
+}
+
+PROPS["C01"] = {
+    "level": "proof",
+    "technique": "Verus contracts on the real condition parser (parse_opcode, sanitizers, list helpers, SpendId::parse, parse_args extracted verbatim) proved equal to a table-driven rule spec over all allocator trees, opcodes and flag words",
+    "level_text": "Deductive proof (Verus/Z3), unbounded in tree shape and flags: each condition is accepted or rejected and decoded exactly as the rule table (DESIGN Appendix A) prescribes. Tier 1 (per-condition parsing) is proved; per-spend/bundle effects (parse_conditions, validate_conditions) are listed under not_covered until their unit closes.",
+    "level_note": "Assumed: clvmr Allocator accessor contracts (abstract immutable tree), bitflags semantics with constants read from flags.rs each run, 2-byte cost table entries (decided by native-eval under C04). Error codes are not part of the contract, accept/reject and the decoded value are.",
+    "components": [V("conditions_parse")],
+    "assumptions": [
+        "clvmr::Allocator accessor contracts over an abstract immutable tree (shims/clvmr.rs)",
+        "bitflags contains() == bit test on the constants read from flags.rs",
+    ],
+    "not_covered": [
+        "parse_conditions / process_single_spend / validate_conditions effects and cross-spend assertions (tier 2)",
+        "MempoolVisitor flag bookkeeping (see C19)",
+    ],
+}
+PROPS["C06"] = {
+    "level": "proof",
+    "technique": "Verus spec-level lemma over the proved-equal rule spec: acceptance under stricter flags implies identical acceptance under laxer flags (per condition)",
+    "level_text": "Deductive proof of the per-condition half of the statement: for every tree, opcode and pair of flag words where one is at least as strict, strict acceptance implies lenient acceptance with the identical parsed condition. The bundle-level lifting and permutation invariance depend on the tier-2 unit and are listed as not covered.",
+    "level_note": "Inherits C01's assumptions. LIMIT_SPENDS and ordering claims are not yet under contract.",
+    "components": [V("conditions_parse")],
+    "assumptions": ["inherits C01 (conditions_parse unit)"],
+    "not_covered": [
+        "lifting through parse_conditions/parse_spends (LIMIT_SPENDS exit, NO_UNKNOWN_CONDS at the opcode dispatch)",
+        "permutation invariance of acceptance, cost and aggregates (needs the tier-2 summary spec)",
     ],
 }
 
